@@ -7,6 +7,11 @@ Open Scope Z_scope.
 (* common section header (4-byte form) followed by the body *)
 Definition sec_bytes (t : Z) (body : bytes) : bytes := le_enc 3 (4 + zlen body) ++ [t] ++ body.
 
+(* the same with the extended common header (size field 0xFFFFFF, 32-bit size): the form of
+   sections of 16 MiB and more *)
+Definition sec_bytes_large (t : Z) (body : bytes) : bytes :=
+  le_enc 3 16777215 ++ [t] ++ le_enc 4 (8 + zlen body) ++ body.
+
 (* section types that fiano neither interprets nor regenerates *)
 Definition leaf_type (t : Z) : bool :=
   negb ((t =? 2) || (t =? 19) || (t =? 20) || (t =? 21) || (t =? 23) || (t =? 27) || (t =? 28)).
